@@ -102,6 +102,9 @@ class SentVars(SymVal):
 class BoundSet(SymVal):
     def __init__(self, S, frozen=False): self.S, self.frozen = S, frozen
     def sym_contains(self, it, x): return z3.IsMember(x.key, self.S)
+    def sym_len(self, it):
+        n = it.fresh_int('nbound'); it.assume(n >= 0); it.assume((n == 0) == (self.S == z3.EmptySet(z3.IntSort()))); return n
+    def sym_truth(self, it): return self.S != z3.EmptySet(z3.IntSort())
     def sym_getattr(self, it, name):
         if name == 'add' and not self.frozen:
             def add(it, x): self.S = z3.SetAdd(self.S, x.key)
